@@ -18,111 +18,111 @@ CLAIMED = {
              "Correspondence: the real Opts::parse (Cmd-tree dump) vs the model on generated and malformed argv; direct oracle: -r form vs Coq-unrolled form executed on sample texts; vic repeat blocks.",
         note=TB + "pest/vic parser not modelled (vic repeat compared at the CLI only); file arguments not generated (file_ok oracle).",
         technique="Coq proof (induction over item trees / stack-machine parser model) + model-vs-binary correspondence",
-        design="§9 C12"),
+        design="§5 C12"),
     "C18": dict(
         text="Theorems (all well-formed item lists, any nesting): every re-spelling (short/long) parses to the same Opts; the parsed Opts depends only on the option sequence and the command sequence, not on their interleaving (top level); "
              "option-inside-scope rejection proved as a refutation witness (known finding). Correspondence: real Opts::parse vs model on 7 spelling/position variants of each generated command line; "
              "the mechanical vic translation of the model's tree is parsed by the binary (tree equality) and all forms executed (byte-identical stdout).",
         note=TB + "pest/vic parser not modelled: vic side rests on tree comparison and output equality (partial).",
         technique="Coq proof (parser model = denotation, spelling/position invariance) + model-vs-binary correspondence",
-        design="§9 C18"),
+        design="§5 C18"),
     "C14": dict(
         text="Theorems: for every text, the JSON string literal written by the model of serde_json's escaping decodes (RFC 8259) to exactly that text and stops at its closing quote; field keys after -n are 1..k or the given names, values in order; "
              "no -c => the buffer verbatim; template literals are copied, closed placeholders replaced by the field, unknown ones are an error; duplicate names refuted (known finding). "
              "Correspondence: the real format_output_json/_standard/_template called in-process on random records with hostile contents vs the model; whole CLI pipeline: stdout = model format_output(dumped records)+newline; json.loads / join / numbering oracles.",
         note=TB + "The JSON document structure (array/object layout) is validated by json.loads on the real output, not proved; serde_json itself is re-modelled, not verified.",
         technique="Coq proof (escape/unescape round trip by induction, numbering invariant, template scanner lemmas) + model-vs-binary correspondence",
-        design="§9 C14"),
+        design="§5 C14"),
     "C03": dict(
         text="Theorems: get_lines loses/duplicates/merges/reorders nothing (concat = input; every piece non-empty with a newline only as terminator); the stdin driver's records are the per-line records concatenated in order; template and delimiter renderings of concatenated records are the concatenation of the renderings; "
              "for every schedule and whatever registers the worker threads hold, the sorted per-line results are the lines' own results (execute resets registers). Correspondence: --linewise runs (stdin/files, serial/parallel, all output modes) vs the Coq driver model fed with the hook's per-unit records; oracles: units = lines exactly once, output = concatenation of one real run per line.",
         note=TB + "JSON layout per driver is modelled, not proved equal across drivers; rayon scheduling trusted (see C04).",
         technique="Coq proof (list induction, permutation/sort argument) + driver-model correspondence + per-line oracle",
-        design="§9 C03"),
+        design="§5 C03"),
     "C04": dict(
         text="Theorems: sort_by_key restores input order from any collection order (permutation argument); schedule independence and isolation for every assignment of units to workers and every initial register state, because execute() resets the registers; refutation for the pre-fix code; parallel = serial up to serial's final newline (single file). "
              "Partial: the theorem covers every schedule of the model; real rayon interleavings are sampled: 36/80 scenarios x 5/10 runs with RAYON_NUM_THREADS in {1..32} and seeded jitter (hook), byte-compared with each other and with --serial, worker ids read from the hook trace.",
         note=TB + "Trusted and not modelled: rayon runs a unit entirely on one worker and only produces schedules of the model; thread_local! is per thread; safe Rust has no data race.",
         technique="Coq proof (schedule-independence by permutation + insertion-sort lemma) + sampled real schedules with jitter hook",
-        design="§9 C04"),
+        design="§5 C04"),
     "C05": dict(
         text="Theorems (all file systems, file lists, payloads): the write loop of the -i drivers leaves every named file holding exactly its payload, touches no other path and prints nothing; with --backup the sibling holds the original object (under the stated no-collision hypothesis); the default driver with -i is that loop on the formatted outputs; the payload equals what the run without -i prints (single file). "
              "Correspondence: every -i run and its twin executed in a scratch directory (4 modes x --backup, stale backups, extension-less/dot files, unnamed bystander files) vs the Coq driver model; oracles: twin payload, motion-only identity, backups, nothing else touched.",
         note=TB + "OS-level behaviour of fs::write/fs::copy not modelled (atomic in the model).",
         technique="Coq proof (file-system map lemmas, induction over the write loop) + driver-model correspondence",
-        design="§9 C05"),
+        design="§5 C05"),
     "C06": dict(
         text="Theorems: for the default/pooled and the parallel --linewise drivers, any unreadable file or aborting unit (any subset, any position), and any formatting error, leaves file system and stdout exactly as before (all reads, executions and formatting precede the first write); --serial refuted with a witness (known finding). "
              "Fault enumeration at the CLI: 2..4 files x all non-empty fault subsets x {invalid UTF-8, data-dependent abort, missing template field} x 7 modes (incl. pooled via vic opts) x --backup (exhaustive on thorough) vs the Coq driver model; oracle: no named file changed, no stray backup.",
         note=TB + "Write-time faults and a file vanishing between validation and read are not injected; fs::write atomicity not modelled.",
         technique="Coq proof (phase structure of the drivers) + exhaustive fault enumeration against the driver model",
-        design="§9 C06"),
+        design="§5 C06"),
     "C15": dict(
         text="Theorems (all token lists of any length): a key string made of the 14 special keys - each independently as alias or as raw control byte / escape sequence - and ordinary characters (any scalar value, multi-byte included) is read one key per token, in order, to its end, so the notation is irrelevant; "
              "'\\<' delivers both characters; '<' that opens no alias is literal; UTF-8 reassembly recovers every scalar value (arithmetic proof). "
              "Correspondence: the real RawReader (in-process) vs the model on alias/modifier/escape-sequence/multi-byte key strings incl. truncated and unknown ones; CLI: 33 scenario templates over normal/insert/replace/visual/search/ex with every alias/raw rendering compared; insert-mode literal texts vs the expand_literal model.",
         note=TB + "Raw ESC followed by '[' or 'O' is an escape sequence by definition and excluded; 'alias' is the code's grammar (so <a> is the key A).",
         technique="Coq proof (byte-level reader model, induction over tokens, lia for UTF-8 arithmetic) + model-vs-binary correspondence",
-        design="§9 C15"),
+        design="§5 C15"),
     "C01": dict(
         text="Theorems (every segmentation of every buffer, multi-byte clusters included): slicing through a fresh cache returns whole clusters and a contiguous stretch; what read_field returns after the key loop is the stretch between the cursor before and after the command, both ends included, clamped into the buffer; "
              "charwise/linewise selections yield exactly the selected clusters. The key loop is a parameter. Correspondence: the real read_field (in-process) on 2.5k/20k (text, start cursor, earlier commands, command) cases vs the model evaluated on the dumped buffer/cache/cursors/selection; "
              "oracles on the fresh segmentation: field = clusters between the cursors / the selection (block rows included); non-editing commands leave the buffer unchanged.",
         note=TB + "That motions/selections/yanks never change the text is checked on the implementation (every case) but not yet proved: it needs the editor-core model.",
         technique="Coq proof (byte-offset/cluster lemmas, clamp arithmetic) + model-vs-binary correspondence on dumped states",
-        design="§9 C01"),
+        design="§5 C01"),
     "C07": dict(
         text="Theorems (every history of commands, u and <c-r>, every text): the stacks are chains of whole texts ending in the current text (invariant by induction over the history); u after a change returns the text before it; an insert session is one change; length-of-stack u's return the original input; "
              "<c-r> after u restores text and stacks; a change drops the redo history; the text after any history is the input or a text some command produced (no new states); the model has no failing outcome. "
              "Correspondence: every ViCmd executed by LineBuf::exec_cmd is traced by the hook and replayed on the model; final buffer and both stacks must match; oracles: no panic at u/<c-r>, earlier-state membership, 14 trailing u's return the input.",
         note=TB + "What each command does to the text is taken from the trace (parametric).",
         technique="Coq proof (chain invariant by induction over operation lists) + trace replay correspondence",
-        design="§9 C07"),
+        design="§5 C07"),
     "C19": dict(
         text="Theorems (every sorted match list, every cursor): /P lands on a match, the first one that starts after the cursor or else the first of the buffer; ?P mirrors it; n/N are the search in the same/opposite direction and always land on a match; a count on n equals that many presses (modular-arithmetic proof over strictly increasing match lists); no match => Null motion; the cursor index is the cluster whose first byte is the match start. "
              "'Match' is the regex engine's find_iter (oracle). Correspondence: every search ViCmd traced by the hook (chains of / ? n N with counts, multi-byte texts, all start cursors) vs the model on (cached offsets, match starts, cursor byte); reference oracle from Python re with wrap-around, direction memory and iterated counts; searches never edit the text; -c fields.",
         note=TB + "regex crate replaced by Python re on the shared subset (no empty matches).",
         technique="Coq proof (first/last-position lemmas, modular iteration) + trace correspondence + reference search",
-        design="§9 C19"),
+        design="§5 C19"),
     "C13": dict(
         text="Theorems (every buffer as a cluster list, every match oracle): the scope's line list contains a line iff it is a line of the text and matches (for -v: does not), each once; -g and -v partition the lines; lines are visited last to first and editing at or after a line's start does not move it (so the cursor is on each visited line's first character for line-local scopes); --else runs iff the list is empty. "
              "Correspondence/oracles at the CLI: 0..9-line texts (empty lines, multi-byte, with/without final newline) x 20 patterns x -g/-v x three observation variants (mark visited lines, cut the character under the cursor per visit, --else) vs Python re per line; the model's scan (lines and starts) evaluated on the real segmentation.",
         note=TB + "regex is an oracle; CRLF texts excluded here (a \\r\\n cluster is not a line break for the editor).",
         technique="Coq proof (filter/rev/NoDup reasoning, prefix-stability of line starts) + CLI oracles",
-        design="§9 C13"),
+        design="§5 C13"),
     "C11": dict(
         text="Theorems (every editor: what a key does is a parameter; key strings read by the byte-level reader model, aliases or raw, multi-byte): if every command of a key string ends at a command boundary (where the end-of-keys submit and the mode reset are the identity), every grouping of the commands into consecutive -m arguments - all 2^(k-1) splittings - yields the state of the keys fed in one go; "
              "without --keep-mode the next argument always starts from the reset mode, with it nothing is reset. Checks run the real execute() at the CLI: sequences of 2..8 boundary-ending commands (probed on the implementation) under all/sampled splittings, buffer with a cursor marker compared; "
              "first arguments ending in pending counts/registers/operators or open Insert/Replace/Visual modes; --keep-mode carry-over and submitted Ex/Search lines; the boundary contract validated on state dumps.",
         note=TB + "Per-key behaviour of the modes is a parameter (partial); with --keep-mode a pending operator also persists: known finding keep-mode-pending-seq.",
         technique="Coq proof (fold over key events on top of the C15 reader theorem) + CLI differential over splittings",
-        design="§9 C11"),
+        design="§5 C11"),
     "C20": dict(
         text="Theorems (every line-buffer semantics): after a repeatable change X and any non-repeatable commands in between, '.' leaves text, cursor and registers exactly as executing X again does; what '.' repeats is untouched by motions/yanks/failed commands; chains X . . . equal X typed k+1 times; a count on '.' executes the stored command with that count. "
              "Correspondence/oracle in-process through the real ViCut: (text, cursor, change X from the repeatable set incl. registers, counts, text objects and insert sessions with <BS>/cursor keys/empty text, earlier changes, 0..4 commands in between, chains up to 5, counts 2/3) with '.' vs X retyped; the editor's repeat register compared across the in-between commands. "
              "Insert sessions entered by a A I o O, c s S C, R, counted sessions and cursor keys inside sessions are known findings (classes by command kind).",
         note=TB + "That retyping X parses to the stored ViCmd, and with_count n X to X typed with count n, is validated by the check, not proved (the normal-mode parser is not modelled).",
         technique="Coq proof (invariant: stored change = last repeatable command) + differential check dot vs retyped",
-        design="§9 C20"),
+        design="§5 C20"),
     "C08": dict(
         text="Theorems (the buffer as its list of grapheme clusters, every cluster range [s,e), hence every motion and text object): delete/change put exactly the removed text into the register and preserve pre and post; yank leaves the text and stores the covered span, the same text a delete over that span removes; put inserts exactly the pieces, delete-then-put restores the text; "
              "upper-case registers append, lower-case overwrite; case operators preserve the cluster count and every cluster outside the span and map only one-character clusters; toggling touches only ASCII letters. "
              "Correspondence/oracles in-process with the ViCmd trace: pre+mid+post decomposition against the dumped registers (append included), yank vs delete over the same motion, put, insert sessions, case operators, r; the drain+register primitive replayed on the model with the same cluster range.",
         note=TB + "Which range a motion selects belongs to C02; block registers are exercised by C01/C02 only.",
         technique="Coq proof (list-splitting lemmas over cluster lists) + trace-based oracles and primitive replay",
-        design="§9 C08"),
+        design="§5 C08"),
     "C09": dict(
         text="Theorems (every cluster list, every cursor a command may leave): the end of exec_cmd puts the cursor inside the text for its mode and, in normal mode, never on the terminator of a non-empty line, and is idempotent; line numbers by newline characters and by newline clusters agree for all texts without \\r\\n (refuted with a CRLF witness: known finding); the reported byte offset is the start of the cluster under the cursor; slices through a fresh cache are cluster aligned. "
              "That every verb re-establishes the rest of the invariant is checked, not proved: random histories (up to 14/40 keys, all modes, modes left open, undo/redo/dot/ex/search) and a fixed regression corpus, with the full state dumped after every key string and the invariant evaluated (cursor.max, fresh cache, bounds per mode, terminator rule, selection inside text and around the cursor); thorough adds the exhaustive depth-3 histories over 20 commands x 5 buffers; vic built-ins line/col/pos/buf_len/char checked against the printed text.",
         note=TB + "Per-verb preservation of the invariant needs the editor-core model (partial).",
         technique="Coq proof (epilogue clamp lemmas, line-count agreement) + invariant evaluation on dumped states",
-        design="§9 C09"),
+        design="§5 C09"),
     "C16": dict(
         text="Theorems (all buffers, ranges, patterns of the fragment): the reference semantics of :[range]d, :[range]y + :[k]pu, :[range]s/pat/rep/[g], :g[!]/pat/d and :g[!]/pat/s changes exactly the addressed lines - the buffer is before ++ within ++ after and only within is removed, copied, rewritten line by line or filtered; the register holds the removed/yanked lines; a backwards range is the same range; a range past the last line or an offset before line 0 addresses nothing and the command is the identity; the first match of the matcher is the leftmost one and a line without a match is unchanged; text and line list carry the same information with and without a final terminator. "
              "Correspondence: chains of 1..4 ex commands (numbers incl. 0 and past the end, . $ % +n -n, reversed ranges; literals, ., classes, \\d, * + ?, ^ $; multi-byte; 0..12 lines; last line with and without terminator) are run through the real CLI and through the reference evaluated in coqc and compared line by line; the reference itself is compared with Vim 9 (vim -es) on every case (0 disagreements), and a corpus of every repaired deviation runs first.",
         note=TB + "The reference is Vim's address rules (validated against /usr/bin/vim each run), not sed's: out-of-range ranges address nothing, backwards ranges are swapped. Where the cursor is after an ex command, the regex crate beyond the modelled fragment, and :normal! keys other than x dd A.. I.. are outside the model (partial).",
         technique="Coq proof (list-surgery lemmas over the line list, leftmost-match lemma for the matcher) + CLI-vs-reference correspondence, reference cross-checked against Vim",
-        design="§9 C16"),
+        design="§5 C16"),
     "C17": dict(
         text="Theorems (reference interpreter, all programs, states and fuels): a block is a scope - after a block, however it is left (end, break, continue, return), the variable stack has exactly the frames and names it had before; a name not visible before a block is not visible after it; output only grows; "
              "the result of a run is independent of the fuel of the definition (a run that ends within its fuel gives the same result with any larger fuel) - proved by one mutual induction over the seven functions of the interpreter. "
@@ -131,7 +131,7 @@ CLAIMED = {
              "are run through the CLI and through the reference evaluated in coqc; stdout must be byte-identical; every program ends by echoing all top-level variables; a hand-written corpus (recursion, shadowing, early return, break/continue, arithmetic order, arrays/strings) runs first.",
         note=TB + "The pest grammar and Expr::from_rule are not modelled: the generator writes source text and AST side by side (partial). Only the core named by the property: no regex values, ternaries, registers, buffers, aliases, includes. Functions use dynamic scope in model and implementation alike; generated bodies only use parameters and top-level variables.",
         technique="Coq proof (mutual fuel induction: scope/output invariant, fuel monotonicity) + CLI-vs-reference-interpreter correspondence",
-        design="§9 C17"),
+        design="§5 C17"),
     "C02": dict(
         text="The reference of this property is Vim 9 itself, run live in batch mode on every case. Theorems (Coq reference model of the core motions h l 0 ^ $ w b e ge W B E gE f F t T with counts, all texts and cursors): every motion keeps the cursor inside the text; the settled normal-mode cursor is never on the line break of a non-empty line; "
              "w makes progress and stops only at a word start, an empty line or the end of the text; b and ge go strictly backwards; f F t land on (before) the searched character on the cursor's line or do not move. The model is tied to Vim and to vicut on every sampled motion case (Vim = model = vicut, zero tolerance). "
@@ -139,14 +139,14 @@ CLAIMED = {
              "a fixed sample of texts up to length 5 and a fixed set of realistic records with 1-3 commands; the cases that deviate on the repaired tree are recorded one by one (known/c02_deviations.json) and listed by command class in known_findings.txt: any other deviation is a violation.",
         note=TB + "Vim 9.0 (/usr/bin/vim) must be present: it is the oracle (if it is missing the check reports that it cannot decide). Outside the motion model the decision is a comparison with Vim over a finite corpus - the property's own quantifier - not a theorem (partial). :normal! per command stands for typing; lines and cursor (line, character column) are compared.",
         technique="Coq proof (bounds / progress / landing lemmas for the motion model) + three-way correspondence Vim = model = vicut on motions + live Vim oracle over an exhaustive small-scope corpus with recorded deviations",
-        design="§9 C02"),
+        design="§5 C02"),
     "C10": dict(
         text="Theorems (all inputs of the modelled components): Opts::parse/handle_global_arg end with an option set or the usage error for every argument vector, scope stack and file-system answer, never a panic (structural recursion: it ends); every key the key reader returns costs at least one byte, so the key loop ends within one iteration per byte and the model's fuel is never what stops it; output formatting ends with text or the error exit; "
              "the five drivers and main's dispatch add no panic to units that end gracefully; undo/redo have no failing outcome. "
              "For the un-modelled rest (editor core, ex, vic) the decision is a test, not a proof: argument vectors from the CLI grammar incl. malformed ones, per-mode key grammar, ex/search lines with bad regexes and ranges, raw control/printable fuzz, vic snippets and token soup on empty, newline-only, long-line, multi-byte, combining, ZWJ-emoji, CRLF and NUL texts, plus a regression corpus of every crash repaired; oracle: exit status 0/1 (1 with a diagnostic), no panic, no signal, 8 s limit, valid UTF-8 on stdout.",
         note=TB + "Panic-freedom of LineBuf verbs/motions, the mode parsers, ex commands and the vic interpreter is covered by the input stream only (partial); hangs there can only be observed by timeout; argument vectors that ask for exponential work (nested -r over line-adding globals) are left out of the stream and counted.",
         technique="Coq proof (totality / progress lemmas for parser, key reader, formatters, drivers, undo) + CLI and in-process crash stream with regression corpus",
-        design="§9 C10"),
+        design="§5 C10"),
 }
 
 NOT_YET = {}
